@@ -56,7 +56,17 @@ def pair_case(draw):
     same = draw(st.integers(0, 2))
     z2 = z1 if same else draw(S.zones())
     u1 = draw(st.one_of(S.instant_near_transition(z1), S.uniform_instant()))
-    m = draw(st.integers(0, 5))
+    m = draw(st.integers(0, 6))
+    tr_all = T.transitions(z1)
+    if m == 6 and tr_all:
+        # a hair's breadth apart on either side of an offset change, in any century: two instants 1..40 us apart whose offsets differ (ordering them
+        # through float timestamps collapses them far from 1970 - seeded changes C05-r7, C18-r8)
+        t = tr_all[draw(st.integers(0, len(tr_all) - 1))][0] * US
+        k1, k2 = draw(st.integers(1, 20)), draw(st.integers(0, 20))
+        a_, b_ = S.clamp_u(t - k1), S.clamp_u(t + k2)
+        if draw(st.booleans()):
+            a_, b_ = b_, a_
+        return {"z1": z1, "z2": z1, "u1": a_, "u2": b_, "prov": draw(st.sampled_from(["convert", "construct"]))}
     if m <= 1:
         u2 = u1 + draw(S.uni(-3 * 86400 * US, 3 * 86400 * US))
     elif m == 2:
